@@ -83,9 +83,9 @@ def random_seq(r, n, mx, length):
         elif k < 0.36:
             o = "O"
         elif k < 0.62:
-            o = "S %d %s" % (r.randrange(n), r.choice(VALS + ["3", "9"]))
+            o = "S %d %s" % (r.randrange(n) if n <= 3 else r.choice([0, 1, 63, 64, n - 1]), r.choice(VALS + ["3", "9"]))
         elif k < 0.68:
-            o = "G %d" % r.randrange(n)
+            o = "G %d" % (r.randrange(n) if n <= 3 else r.choice([0, 1, 63, 64, n - 1]))
         elif k < 0.78:
             o = "A %s" % r.choice(["4", "5", "6", "M"])
         elif k < 0.86:
@@ -199,6 +199,9 @@ def gen_cases(tier, seed):
         (1, 10, "A 7;P 5 5;A 8;B;B;A 9;O;B".split(";")),
         (1, 2, "P 1 1;P 2 2;P 3 3;C;O;O".split(";")),
         (2, 10, "P 1 1;A 3;P 2 2;S 0 1;A 4;U 1;B;B;O;C".split(";")),
+        # slot indices beyond one machine word of bits, written in frames a cut merges
+        (70, 10, "S 65 1;S 1 1;P 0 0;S 65 2;S 1 2;P 1 1;S 65 3;S 64 1;S 1 3;P 2 2;S 65 4;S 69 1;U 1;G 65;G 1;O;G 65;G 64;G 1;G 69".split(";")),
+        (66, 10, "P 0 0;S 64 1;P 1 1;S 0 1;S 64 2;U 1;O;G 64;G 0".split(";")),
     ]
     cases += corpus
     ex_len = 3 if tier == "quick" else 4
@@ -206,7 +209,7 @@ def gen_cases(tier, seed):
         cases += [(n, 10, s) for s in exhaustive(n, ex_len if n == 1 else ex_len - (0 if tier == "quick" else 1))]
     nrand = 4000 if tier == "quick" else 150000
     for i in range(nrand):
-        n = r.choice([1, 2, 3, 3])
+        n = r.choice([1, 2, 3, 3]) if i % 50 else r.choice([65, 66, 70])
         mx = r.choice([10, 10, 10, 3, 2])
         ln = r.randrange(4, 40 if tier == "quick" else 90)
         cases.append((n, mx, random_seq(r, n, mx, ln)))
@@ -240,7 +243,7 @@ def state_part(ctx):
     ctx["evals"] += len(lines)
     ctx["nontrivial"] += len(distinct)
     res.notes.update(state_histories=len(lines), state_histories_nontrivial=len(distinct),
-                     state_history_rule="histories = fixed corpus + all valid sequences of a fixed short length over the op alphabet (1-2 slots) + seeded random valid sequences (1-3 slots, values {0,1,2,3,9,M}, max_stack in {2,3,10}); valid by construction against a depth mirror; non-trivial = contains a slot write later abandoned, or a cut; distinct by full text",
+                     state_history_rule="histories = fixed corpus + all valid sequences of a fixed short length over the op alphabet (1-2 slots) + seeded random valid sequences (1-3 slots, one in fifty with 65-70 slots written at indices around the 64-bit word boundary, values {0,1,2,3,9,M}, max_stack in {2,3,10}); valid by construction against a depth mirror; non-trivial = contains a slot write later abandoned, or a cut; distinct by full text",
                      state_history_samples=[lines[0], lines[min(ncorp, len(lines) - 1)], lines[-1]],
                      history_length_min=min(lens), history_length_max=max(lens),
                      op_histogram=opk,
